@@ -165,10 +165,22 @@ def make_input(case):
         entered = True
     elif kind == "sizes" and a is not None and a.header_bytes:
         toks = M.tokenize(a.header_bytes)
+        if r.chance(0.35):
+            # a count without its size list: drop a whole kSize record (id and entries), then inflate the counts
+            lab = r.pick(["packsize", "packsize", "substreamsize"])
+            idx = [k for k, t in enumerate(toks) if t.label == lab]
+            if idx:
+                lo, hi = idx[0], idx[-1] + 1
+                if lo > 0 and toks[lo - 1].kind == "id":
+                    lo -= 1
+                del toks[lo:hi]
+                desc.append("drop the %s record" % lab)
         cands = [k for k, t in enumerate(toks) if t.kind == "num" and t.label in ("packpos", "packsize", "unpacksize", "substreamsize", "numpackstreams",
                                                                                   "numfolders", "numunpackstream", "numfiles", "numcoders")]
-        # pack sizes are what test() and the decoders count down: weight them up
+        # pack sizes are what test() and the decoders count down: weight them up; after a dropped record, the counts
         cands += [k for k in cands if toks[k].label == "packsize"] * 3
+        if desc:
+            cands += [k for k in cands if toks[k].label in ("numpackstreams", "numunpackstream")] * 6
         for _ in range(r.randint(1, 2)):
             if not cands:
                 break
